@@ -459,10 +459,12 @@ impl WriteHalf {
     // If a seq is not assignable the connection has been reset by the
     // peer.
     fn seq(&self, world: &mut World) -> Result<u64> {
-        world
-            .current_host_mut()
-            .tcp
-            .assign_send_seq(*self.pair)
+        let tcp = &mut world.current_host_mut().tcp;
+        // The socket under our pair may belong to a newer connection that
+        // reuses the port: this stream is gone then.
+        tcp.owns_stream(*self.pair, &self.flow_control)
+            .then(|| tcp.assign_send_seq(*self.pair))
+            .flatten()
             .ok_or_else(|| io::Error::new(io::ErrorKind::BrokenPipe, "Broken pipe"))
     }
 
@@ -532,6 +534,11 @@ impl BidiFlowControl {
             write: self.read,
             read: self.write,
         }
+    }
+
+    /// Whether `half` is one of the two directions of this connection.
+    pub(crate) fn contains(&self, half: &Arc<FlowControl>) -> bool {
+        Arc::ptr_eq(&self.write, half) || Arc::ptr_eq(&self.read, half)
     }
 
     /// The connection was reset by the peer: fail the local writer instead of
@@ -666,6 +673,16 @@ impl AsyncWrite for TcpStream {
 impl Drop for ReadHalf {
     fn drop(&mut self) {
         World::current_if_set(|world| {
+            // Our socket entry is gone (reset); whatever lives under the
+            // pair now is not ours to tear down.
+            if !world
+                .current_host_mut()
+                .tcp
+                .owns_stream(*self.pair, &self.flow_control)
+            {
+                return;
+            }
+
             // RFC 9293 §3.10.4: closing with unread data MUST send a RST so
             // the peer learns data was lost. "Unread data" = application
             // bytes received but not consumed: partial segment bytes stashed
@@ -701,6 +718,14 @@ impl Drop for ReadHalf {
 impl Drop for WriteHalf {
     fn drop(&mut self) {
         World::current_if_set(|world| {
+            if !world
+                .current_host_mut()
+                .tcp
+                .owns_stream(*self.pair, &self.flow_control)
+            {
+                return;
+            }
+
             // skip sending Fin if the write half is already shutdown
             if !self.is_shutdown {
                 if let Ok(seq) = self.seq(world) {
